@@ -218,6 +218,21 @@ def cell_integral(coeffs, zlo, zhi):
     return tot * (zhi - zlo)
 
 
+def asm_power_integral(case, aid):
+    """Total power (W) of assembly aid (1-based id of the power file) as
+    the integral of its own profile (before normalisation / scaling)."""
+    p = case['power'][str(aid)]
+    tot = 0.0
+    for comp in ('pins', 'duct', 'cool'):
+        arr = p.get(comp)
+        if arr is None:
+            continue
+        for ci in range(len(p['z']) - 1):
+            for coeffs in arr[ci]:
+                tot += cell_integral(coeffs, p['z'][ci], p['z'][ci + 1])
+    return tot
+
+
 def poly_at(coeffs, zeta):
     return sum(c * zeta ** k for k, c in enumerate(coeffs))
 
